@@ -691,6 +691,24 @@ def _recv(e) -> Optional[str]:
 def r4_render_cache(run):
     p = run.project
     resp_classes = {q for q in p.classes if p.is_subclass(q, 'falcon.response.Response') is True}
+    # (0) assigning response media always invalidates the rendered body: the
+    # setter reaches the cache reset on EVERY normal path (an identity/equality
+    # shortcut is wrong -- the same object may have been edited in place since
+    # it was rendered)
+    setter = p.funcs.get('falcon.response.Response.media.setter')
+    if setter is None:
+        raise AnchorError('Response.media setter not found')
+    scfg = cfg_of(setter, p)
+    run.use_cfg(scfg)
+    s_resets = [n.id for n in scfg.live_nodes() if n.kind == 'stmt' and any(_recv(t) == 'self' for t in _writes(n.ast, '_media_rendered'))
+                and _is_unset(p, setter, getattr(n.ast, 'value', None))]
+    s_writes = [n.id for n in scfg.live_nodes() if n.kind == 'stmt' and any(_recv(t) == 'self' for t in _writes(n.ast, '_media'))]
+    for what, nodes in (('resets the rendered-media cache', s_resets), ('stores the new media', s_writes)):
+        path = flow.find_path(scfg, [scfg.entry], [scfg.exit], avoid_nodes=nodes, edge_filter=flow.no_exc) if nodes else [scfg.entry]
+        run.check(path is None, 'every normal path through the Response.media setter %s' % what, setter,
+                  'media setter: %s on all paths' % what, where=setter.loc(),
+                  witness=flow.describe_path(scfg, path) if path and nodes else None,
+                  runtime_witness='resp.media = doc; resp.render_body(); doc[\'k\'] = 2; resp.media = doc -> the stale body is sent')
     # (a) every writer of Response._media resets _media_rendered
     n_w = 0
     for fn in p.all_functions():
